@@ -75,7 +75,7 @@ value changed is notified -/
 def clauseOwnerFired (b : State) (op : Op) (out : Out) (fired : Option (List ObjId)) (a : State) : Bool :=
   match op with
   | .apMatch k j =>
-    out.isErr || !namesUniqueB b j || !namesUniqueB b k ||
+    out.isErr || !namesUniqueB b j ||
       (let f := fired.getD []
        f.all (fun s => (b.lists j).contains s &&
          (match find? b.heap (b.lists k) (nameOf b.heap s) with
